@@ -163,9 +163,24 @@ class PipeT(asyncio.Transport):
         if self.closed or self.paused or not self.buf:
             return
         n = self.seg.take(len(self.buf), self.buf)
+        kill = getattr(self, "kill_at", None)     # fault injection: the peer vanishes after this many bytes
+        if kill is not None:
+            n = min(n, max(0, kill - getattr(self, "delivered", 0)))
         d = bytes(self.buf[:n]); del self.buf[:n]
-        self.deliveries += 1
-        self.proto.data_received(d)
+        self.delivered = getattr(self, "delivered", 0) + n
+        if d:
+            self.deliveries += 1
+            self.proto.data_received(d)
+        if kill is not None and self.delivered >= kill:
+            # clean end of the connection (FIN) exactly here; whatever the peer wrote beyond is lost
+            self.buf.clear()
+            self.peer.closing = True
+            if not self.closing:
+                self.closing = True
+                self.closed_by = "peer"
+                self.loop.call_soon(self._lost)
+            self.loop.call_soon(self.peer._lost)
+            return
         if self.buf:
             self._schedule()
 
@@ -226,7 +241,7 @@ class PipeT(asyncio.Transport):
         pass
 
 
-def make_connector(server_factory, seg_c2s=None, seg_s2c=None, **kw):
+def make_connector(server_factory, seg_c2s=None, seg_s2c=None, kill_s2c=None, kill_c2s=None, **kw):
     from aiohttp.connector import BaseConnector
 
     class PipeConnector(BaseConnector):
@@ -252,6 +267,10 @@ def make_connector(server_factory, seg_c2s=None, seg_s2c=None, **kw):
             ct.proto, stt.proto = cp, sp
             sp.connection_made(stt)
             cp.connection_made(ct)
+            if kill_s2c is not None and not self.pairs:
+                ct.kill_at = kill_s2c
+            if kill_c2s is not None and not self.pairs:
+                stt.kill_at = kill_c2s
             self.pairs.append((ct, stt))
             return cp
 
